@@ -1,1 +1,559 @@
--- C17: property theorems (to be filled in)
+/-
+C17 — property theorems. Every statement is about `execute`, the model of
+`<Dataset>(files, image, tag, output_directory)` followed by `execute_result_async`, for ALL
+dataset arguments `a` (any backend row, any file list, image, tag, output directory), ALL query
+facts `q` (any metadata list), ALL file-system facts `fs` and ALL container outcomes `o` (any
+number of chunks, failure at the call or after any chunk, result file present or not).
+`observe` is what the harness can see of such an execution; the clauses (`ValidateFirst`, …) are
+the ones the driver evaluates on the real code's observations.
+Helper lemmas live in `Proofs.lean`.
+-/
+import FaxVerif.C17.Proofs
+namespace FaxVerif.C17
+open FaxVerif.Generated.C17 (BackendRow backends volumePrefix resultFileName unrecognised)
+
+/-! ## validation comes first -/
+
+/-- **C17.validate_first** — an empty file list or a missing file makes the *constructor* raise:
+no temporary directory, no container, nothing returned; arguments that are fine are never refused
+by the constructor; files from different directories make the execution raise, again without any
+`docker.run`. -/
+theorem validate_first (a : DatasetArgs) (q : QueryFacts) (fs : FsFacts) (o : Outcome) :
+    ValidateFirst a fs (observe a (execute a q fs o)) := by
+  have h := execute_shape a q fs o
+  generalize execute a q fs o = r at h
+  cases h with
+  | refused e hv hc => simp [ValidateFirst, observe, callsOf, hv]
+  | untranslatable hv ht => simp [ValidateFirst, observe, callsOf, hv]
+  | differentDirs hv ht hs ls => simp [ValidateFirst, observe, callsOf, hv]
+  | ran hv ht hs u us hp tl r htl =>
+    obtain ⟨_, h2, _⟩ := observe_ran a (mkCall (mkDataset a fs) q u.parent) tl r htl
+    simp only [ValidateFirst, h2]
+    simp [hv, hs]
+
+/-- **C17.constructor_exact** — the constructor's refusals, exactly: no file ⇒ `noFiles`
+(RuntimeError); otherwise the *first* file that does not exist ⇒ `fileMissing` (FileNotFoundError);
+in both cases the trace is empty (nothing was created, nothing has to be released). Valid
+arguments always reach the `with TemporaryDirectory()` block. -/
+theorem constructor_exact (a : DatasetArgs) (q : QueryFacts) (fs : FsFacts) (o : Outcome) :
+    (paths a = [] → execute a q fs o = ([], .error .noFiles)) ∧
+    (paths a ≠ [] → (¬ ∀ f ∈ paths a, fs.exists f = true) →
+      ∃ f, (paths a).find? (fun f => !fs.exists f) = some f ∧ execute a q fs o = ([], .error (.fileMissing f))) ∧
+    (Valid a fs → ∃ evs, (execute a q fs o).1 = .tmpCreate :: evs) := by
+  refine ⟨?_, ?_, ?_⟩
+  · intro h
+    unfold execute; rw [construct_of_empty a fs h]
+  · intro hne hm
+    obtain ⟨f, _, _, hc, hf⟩ := construct_of_missing a fs hne hm
+    exact ⟨f, hf, by unfold execute; rw [hc]⟩
+  · intro hv
+    unfold execute; rw [construct_of_valid a fs hv]
+    exact ⟨_, rfl⟩
+
+/-! ## the file list -/
+
+/-- **C17.filelist** — whenever a container is started, the `filelist.txt` it finds next to the main
+script is `/data/<name>` for every input file, one per line, in the order given. -/
+theorem filelist (a : DatasetArgs) (q : QueryFacts) (fs : FsFacts) (o : Outcome) :
+    FileListOk a (observe a (execute a q fs o)) := by
+  have h := execute_shape a q fs o
+  generalize execute a q fs o = r at h
+  cases h with
+  | refused e hv hc => simp [FileListOk, observe, callsOf]
+  | untranslatable hv ht => simp [FileListOk, observe, callsOf]
+  | differentDirs hv ht hs ls => simp [FileListOk, observe, callsOf]
+  | ran hv ht hs u us hp tl r htl =>
+    obtain ⟨_, _, h3, _⟩ := observe_ran a (mkCall (mkDataset a fs) q u.parent) tl r htl
+    intro _
+    rw [h3]
+    rfl
+
+theorem splitSlash_no_slash (cs : List Char) : ∀ w ∈ splitSlash cs, '/' ∉ w := by
+  induction cs with
+  | nil => simp [splitSlash]
+  | cons c cs ih =>
+    unfold splitSlash
+    by_cases hc : c = '/'
+    · simp only [hc, if_true]
+      intro w hw
+      rcases List.mem_cons.1 hw with rfl | hw
+      · simp
+      · exact ih w hw
+    · simp only [hc, if_false]
+      cases hs : splitSlash cs with
+      | nil => simp; exact fun h => hc h.symm
+      | cons w ws =>
+        rw [hs] at ih
+        intro w' hw'
+        rcases List.mem_cons.1 hw' with rfl | hw'
+        · have := ih w (by simp)
+          simp only [List.mem_cons, not_or]
+          exact ⟨fun h => hc h.symm, this⟩
+        · exact ih w' (by simp [hw'])
+
+/-- **C17.name_has_no_slash** — the `<name>` written after `/data/` never contains a `/`: every line
+of the file list points directly into the directory mounted at `/data`. -/
+theorem name_has_no_slash (s : String) : '/' ∉ (parsePath s).name.toList := by
+  unfold parsePath parseChars PPath.name
+  generalize (splitRoot s.toList) = sr
+  obtain ⟨root, rel⟩ := sr
+  simp only
+  cases hl : (((splitSlash rel).filter keepWord).map String.ofList).getLast? with
+  | none => simp
+  | some n =>
+    have hmem := List.mem_of_getLast? hl
+    simp only [List.mem_map, List.mem_filter] at hmem
+    obtain ⟨w, ⟨hw, _⟩, rfl⟩ := hmem
+    simp only [Option.getD_some, String.toList_ofList]
+    exact splitSlash_no_slash rel w hw
+
+/-- **C17.filelist_names_the_files** — on every input that gets a container: the directory
+mounted at `/data` is the directory of every input file, and an input file is exactly
+`<that directory>/<name>` (so `/data/<name>` inside the container *is* that file); only a path
+without any component (`/`, `.`) has no such name. -/
+theorem filelist_names_the_files (a : DatasetArgs) (q : QueryFacts) (fs : FsFacts) (o : Outcome)
+    (c : DockerCall) (hc : c ∈ (observe a (execute a q fs o)).calls) :
+    ∃ dir, (⟨.path dir, "/data/", some "ro"⟩ : Volume) ∈ c.volumes ∧
+      ∀ f ∈ paths a, f.parent = dir ∧ (f.parts ≠ [] → dir.child f.name = f) := by
+  have h := execute_shape a q fs o
+  generalize execute a q fs o = r at h hc
+  cases h with
+  | refused e hv hc' => simp [observe, callsOf] at hc
+  | untranslatable hv ht => simp [observe, callsOf] at hc
+  | differentDirs hv ht hs ls => simp [observe, callsOf] at hc
+  | ran hv ht hs u us hp tl r htl =>
+    obtain ⟨h1, _⟩ := observe_ran a (mkCall (mkDataset a fs) q u.parent) tl r htl
+    rw [h1] at hc
+    simp only [List.mem_singleton] at hc
+    subst hc
+    refine ⟨u.parent, by simp [mkCall, volumesFor], ?_⟩
+    intro f hf
+    have hfu : f.parent = u.parent := hs f hf u (by rw [hp]; simp)
+    refine ⟨hfu, fun hne => ?_⟩
+    rw [← hfu]
+    obtain ⟨root, parts⟩ := f
+    simp only [PPath.parent, PPath.child, PPath.name, PPath.mk.injEq, true_and]
+    simp only at hne
+    rw [List.getLast?_eq_some_getLast hne]
+    simpa using List.dropLast_concat_getLast hne
+
+/-! ## the image -/
+
+theorem chooseImage_eq (d : String) (mds : List MdEntry) :
+    chooseImage d mds = match mds.find? MdEntry.isDocker with
+      | some (.docker (some i)) => i
+      | _ => d := by
+  unfold chooseImage foundDocker
+  induction mds with
+  | nil => simp
+  | cons m ms ih =>
+    simp only [List.reverse_cons, List.filterMap_append, List.filterMap_cons, List.filterMap_nil]
+    cases m with
+    | other =>
+      simp only [mdImage, List.append_nil, List.find?_cons, MdEntry.isDocker]
+      exact ih
+    | docker img =>
+      cases img with
+      | none => simp [mdImage, MdEntry.isDocker]
+      | some i => simp [mdImage, List.find?, MdEntry.isDocker]
+
+/-- **C17.image** — every container is started on the image the innermost `docker` metadata entry
+names (`md[-1]` of `extract_metadata`'s outermost-first list); when that entry has no `image` key,
+or the query has no such entry, on the dataset's `image:tag` (explicit arguments or the backend's
+defaults from the generated table). -/
+theorem image (a : DatasetArgs) (q : QueryFacts) (fs : FsFacts) (o : Outcome) :
+    ImageOk a q (observe a (execute a q fs o)) := by
+  have h := execute_shape a q fs o
+  generalize execute a q fs o = r at h
+  cases h with
+  | refused e hv hc => simp [ImageOk, observe, callsOf]
+  | untranslatable hv ht => simp [ImageOk, observe, callsOf]
+  | differentDirs hv ht hs ls => simp [ImageOk, observe, callsOf]
+  | ran hv ht hs u us hp tl r htl =>
+    obtain ⟨h1, _⟩ := observe_ran a (mkCall (mkDataset a fs) q u.parent) tl r htl
+    intro c hc
+    rw [h1] at hc
+    simp only [List.mem_singleton] at hc
+    subst hc
+    simp only [mkCall, mkDataset, expectedImage]
+    exact chooseImage_eq _ _
+
+/-- **C17.image_default_without_docker_md** — metadata of other kinds never changes the image; with
+no `docker` entry the container runs `image:tag`, which is `<default image>:<default tag>` of the
+backend when the caller gave neither. -/
+theorem image_default_without_docker_md (a : DatasetArgs) (q : QueryFacts) (fs : FsFacts) (o : Outcome)
+    (hno : ∀ m ∈ q.mds, m.isDocker = false) :
+    ∀ c ∈ (observe a (execute a q fs o)).calls,
+      c.image = a.image.getD a.row.defaultImage ++ ":" ++ a.tag.getD a.row.defaultTag := by
+  intro c hc
+  have := image a q fs o c hc
+  rw [this]
+  unfold expectedImage
+  have : q.mds.find? MdEntry.isDocker = none := by
+    rw [List.find?_eq_none]; intro m hm; simp [hno m hm]
+  rw [this]
+  rfl
+
+
+/-! ## the volumes -/
+
+theorem strip_scripts : stripSlash "/scripts" = "/scripts" := by decide
+theorem strip_results : stripSlash "/results" = "/results" := by decide
+theorem strip_data : stripSlash "/data/" = "/data" := by decide
+
+theorem canon_volumesFor (row : BackendRow) (dir : PPath) :
+    (volumesFor row dir).map Volume.canon = expectedVolumes row dir := by
+  unfold volumesFor expectedVolumes
+  simp [Volume.canon, cacheVolume, strip_scripts, strip_results, strip_data]
+
+theorem sameMembers_refl {α} [DecidableEq α] (l : List α) : sameMembers l l :=
+  ⟨rfl, fun _ h => h, fun _ h => h⟩
+
+/-- **C17.volumes** — every container gets: the package directory read-only at `/scripts` and
+writable at `/results`, the directory of the input files read-only at `/data`, and the docker
+volumes `func_adl_<name>` the backend's `docker_cache_volume()` lists (generated table) at their
+mount points — and nothing else. -/
+theorem volumes (a : DatasetArgs) (q : QueryFacts) (fs : FsFacts) (o : Outcome) :
+    VolumesOk a (observe a (execute a q fs o)) := by
+  have h := execute_shape a q fs o
+  generalize execute a q fs o = r at h
+  cases h with
+  | refused e hv hc => simp [VolumesOk, observe, callsOf]
+  | untranslatable hv ht => simp [VolumesOk, observe, callsOf]
+  | differentDirs hv ht hs ls => simp [VolumesOk, observe, callsOf]
+  | ran hv ht hs u us hp tl r htl =>
+    obtain ⟨h1, _⟩ := observe_ran a (mkCall (mkDataset a fs) q u.parent) tl r htl
+    intro c hc
+    rw [h1] at hc
+    simp only [List.mem_singleton] at hc
+    subst hc
+    unfold volumesMatch
+    rw [hp]
+    simp only [List.head?_cons, mkCall, mkDataset, canon_volumesFor]
+    exact sameMembers_refl _
+
+/-! ## the call -/
+
+/-- **C17.call_exactly_when_runnable** — `docker.run` is called at most once, and exactly on the
+inputs that are valid, share a directory and translate; its command is the package's main script
+`/scripts/<runner>`; at that moment the complete package (every file of the executor, the main
+script among them, and the file list) is in the run directory, which still exists.
+Hypothesis on the backend row (decidable, proved for the generated table in
+`generated_backends_wellformed`): the main script is one of the package's files. -/
+theorem call_exactly_when_runnable (a : DatasetArgs) (q : QueryFacts) (fs : FsFacts) (o : Outcome)
+    (hrow : a.row.runner ∈ a.row.fileNames) :
+    CallOk a q fs (observe a (execute a q fs o)) := by
+  have h := execute_shape a q fs o
+  generalize execute a q fs o = r at h
+  cases h with
+  | refused e hv hc => simp [CallOk, Runnable, observe, callsOf, hv]
+  | untranslatable hv ht => simp [CallOk, Runnable, observe, callsOf, ht]
+  | differentDirs hv ht hs ls => simp [CallOk, Runnable, observe, callsOf, hs]
+  | ran hv ht hs u us hp tl r htl =>
+    obtain ⟨h1, _, _, h4, h5, _⟩ := observe_ran a (mkCall (mkDataset a fs) q u.parent) tl r htl
+    simp only [CallOk, h1, h4, h5]
+    simp [Runnable, hv, hs, ht, hrow, mkCall, mkDataset]
+
+theorem prepare_no_run (ds : Dataset) (q : QueryFacts) : callsOf (prepare ds q).1 = [] := by
+  unfold prepare
+  cases ht : q.translates
+  · simp [callsOf]
+  · cases hf : ds.files with
+    | nil => simp [callsOf]
+    | cons u us =>
+      by_cases hw : (walkFiles u.parent (u :: us)).snd = true <;> simp [hw, callsOf]
+
+/-- **C17.plan_is_the_call** — `plan` (constructor validation, translation, same-directory check,
+image choice, volume list) decides the run: when it yields a call, that call is the one and only
+`docker.run`; when it yields an error, no container is started and that error is the result. -/
+theorem plan_is_the_call (a : DatasetArgs) (q : QueryFacts) (fs : FsFacts) (o : Outcome) :
+    (∀ c, plan a q fs = .ok c → (observe a (execute a q fs o)).calls = [c]) ∧
+    (∀ e, plan a q fs = .error e →
+      (observe a (execute a q fs o)).calls = [] ∧ (execute a q fs o).2 = .error e) := by
+  unfold plan execute
+  cases hc : construct a fs with
+  | error e => simp [observe, callsOf]
+  | ok ds =>
+    simp only
+    have hnr := prepare_no_run ds q
+    cases hp : prepare ds q with
+    | mk evs r =>
+      rw [hp] at hnr
+      cases r with
+      | error e =>
+        rw [body_of_prepare_error ds q fs o evs e hp]
+        simp [observe, callsOf, callsOf_append, hnr]
+      | ok c =>
+        obtain ⟨tl, r, htl, hb⟩ := body_of_prepare_ok ds q fs o evs c hp
+        rw [hb]
+        have := htl.facts.1
+        simp [observe, callsOf, callsOf_append, hnr, this]
+
+/-! ## failures -/
+
+/-- **C17.failure_propagates** — if a container was started and it fails (the stream ends in a
+`DockerException` or any other exception, raised by `docker.run` itself or after any number of
+chunks), the caller gets an exception: nothing is returned, nothing is copied. -/
+theorem failure_propagates (a : DatasetArgs) (q : QueryFacts) (fs : FsFacts) (o : Outcome) :
+    FailurePropagates o (observe a (execute a q fs o)) := by
+  have h := execute_shape a q fs o
+  generalize execute a q fs o = r at h
+  cases h with
+  | refused e hv hc => simp [FailurePropagates, observe, callsOf]
+  | untranslatable hv ht => simp [FailurePropagates, observe, callsOf]
+  | differentDirs hv ht hs ls => simp [FailurePropagates, observe, callsOf]
+  | ran hv ht hs u us hp tl r htl =>
+    obtain ⟨_, _, _, _, _, _, _, hok, herr⟩ := observe_ran a (mkCall (mkDataset a fs) q u.parent) tl r htl
+    intro _ hne
+    cases htl with
+    | streamFailed n e h => obtain ⟨h1, h2, h3⟩ := herr e rfl; exact ⟨by rw [h1]; rfl, h2, h3⟩
+    | deliverFailed n e h hd => exact absurd (runContainer_ok o n h).1 hne
+    | delivered n p h hd => exact absurd (runContainer_ok o n h).1 hne
+
+/-
+Full-strength statement (false of the code, see `failure_class_counterexample`):
+  ∀ a q fs o, FailureClass o (observe a (execute a q fs o))
+-/
+/-- **C17.failure_class_partial** — the exception that arrives is the container's own
+(`DockerException` re-raised after logging, any other exception untouched), PROVIDED every output
+chunk decodes as UTF-8 (`AllDecode`, decidable). Missing: with an undecodable chunk the loop raises
+`UnicodeDecodeError` before the stream can report the container's failure. -/
+theorem failure_class_partial (a : DatasetArgs) (q : QueryFacts) (fs : FsFacts) (o : Outcome)
+    (hd : AllDecode o) : FailureClass o (observe a (execute a q fs o)) := by
+  have h := execute_shape a q fs o
+  generalize execute a q fs o = r at h
+  cases h with
+  | refused e hv hc => simp [FailureClass, observe, callsOf]
+  | untranslatable hv ht => simp [FailureClass, observe, callsOf]
+  | differentDirs hv ht hs ls => simp [FailureClass, observe, callsOf]
+  | ran hv ht hs u us hp tl r htl =>
+    obtain ⟨_, _, _, _, _, _, _, hok, herr⟩ := observe_ran a (mkCall (mkDataset a fs) q u.parent) tl r htl
+    intro _ hne
+    obtain ⟨n', e', hr', hcls⟩ := runContainer_failure_class o hne hd
+    cases htl with
+    | streamFailed n e h =>
+      rw [hr'] at h
+      simp only [Prod.mk.injEq, Except.error.injEq] at h
+      obtain ⟨_, rfl⟩ := h
+      rw [(herr e' rfl).1, hcls]
+    | deliverFailed n e h hd' => exact absurd (runContainer_ok o n h).1 hne
+    | delivered n p h hd' => exact absurd (runContainer_ok o n h).1 hne
+
+/-- **C17.missing_result** — a container that was started and does not leave the result file in
+`/results` means an exception for the caller (`FileNotFoundError` from the copy when the stream
+ended well), never a returned path. -/
+theorem missing_result (a : DatasetArgs) (q : QueryFacts) (fs : FsFacts) (o : Outcome) :
+    MissingResult o (observe a (execute a q fs o)) := by
+  have h := execute_shape a q fs o
+  generalize execute a q fs o = r at h
+  cases h with
+  | refused e hv hc => simp [MissingResult, observe, callsOf]
+  | untranslatable hv ht => simp [MissingResult, observe, callsOf]
+  | differentDirs hv ht hs ls => simp [MissingResult, observe, callsOf]
+  | ran hv ht hs u us hp tl r htl =>
+    obtain ⟨_, _, _, _, _, _, _, hok, herr⟩ := observe_ran a (mkCall (mkDataset a fs) q u.parent) tl r htl
+    intro _ hmiss
+    cases htl with
+    | streamFailed n e h => obtain ⟨h1, h2, h3⟩ := herr e rfl; exact ⟨by rw [h1]; rfl, h2, h3⟩
+    | deliverFailed n e h hd => obtain ⟨h1, h2, h3⟩ := herr e rfl; exact ⟨by rw [h1]; rfl, h2, h3⟩
+    | delivered n p h hd => simp [deliver, hmiss] at hd
+
+/-! ## success -/
+
+/-
+Full-strength statement (false of the code, see `success_returns_counterexample`):
+  ∀ a q fs o, SuccessReturns a q fs o (observe a (execute a q fs o))
+-/
+/-- **C17.success_returns_partial** — valid files in one directory, a query that translates, a
+container that ends well and leaves its result, an existing output directory: the caller gets
+exactly `[<output directory or temp root>/<result file>]` and that file is the copy of the
+container's result — PROVIDED every output chunk decodes as UTF-8 (`AllDecode`, decidable).
+Missing: undecodable output makes `stream_content.decode()` raise although the container
+succeeded. -/
+theorem success_returns_partial (a : DatasetArgs) (q : QueryFacts) (fs : FsFacts) (o : Outcome)
+    (hd : AllDecode o) : SuccessReturns a q fs o (observe a (execute a q fs o)) := by
+  intro hrun hend hres hout
+  obtain ⟨hv, hs, ht⟩ := hrun
+  have h := execute_shape a q fs o
+  generalize execute a q fs o = r at h
+  cases h with
+  | refused e hv' hc => exact absurd hv hv'
+  | untranslatable hv' ht' => rw [ht] at ht'; cases ht'
+  | differentDirs hv' ht' hs' ls => exact absurd hs hs'
+  | ran hv' ht' hs' u us hp tl r htl =>
+    obtain ⟨_, _, _, _, _, _, _, hok, herr⟩ := observe_ran a (mkCall (mkDataset a fs) q u.parent) tl r htl
+    have hrc := runContainer_success o hend hd
+    have hdel : deliver (mkDataset a fs) fs o = .ok ((mkDataset a fs).outDir.child resultFileName) := by
+      simp [deliver, hres, hout]
+    cases htl with
+    | streamFailed n e h => rw [hrc] at h; simp at h
+    | deliverFailed n e h hd' => rw [hdel] at hd'; cases hd'
+    | delivered n p h hd' =>
+      rw [hdel] at hd'
+      simp only [Except.ok.injEq] at hd'
+      subst hd'
+      obtain ⟨h1, h2, h3⟩ := hok _ rfl
+      exact ⟨h1, by rw [h2]; rfl, h3⟩
+
+/-- **C17.returns_only_on_success** — a path is returned only when everything went well: valid
+files in one directory, the query translated, a container ran and ended well, its result file was
+there and the output directory existed. No half results. -/
+theorem returns_only_on_success (a : DatasetArgs) (q : QueryFacts) (fs : FsFacts) (o : Outcome) :
+    ReturnsOnlyOnSuccess a q fs o (observe a (execute a q fs o)) := by
+  have h := execute_shape a q fs o
+  generalize execute a q fs o = r at h
+  cases h with
+  | refused e hv hc => simp [ReturnsOnlyOnSuccess, observe]
+  | untranslatable hv ht => simp [ReturnsOnlyOnSuccess, observe]
+  | differentDirs hv ht hs ls => simp [ReturnsOnlyOnSuccess, observe]
+  | ran hv ht hs u us hp tl r htl =>
+    obtain ⟨h1, _, _, _, _, _, _, hok, herr⟩ := observe_ran a (mkCall (mkDataset a fs) q u.parent) tl r htl
+    intro hret
+    cases htl with
+    | streamFailed n e h => rw [(herr e rfl).2.1] at hret; exact absurd rfl hret
+    | deliverFailed n e h hd => rw [(herr e rfl).2.1] at hret; exact absurd rfl hret
+    | delivered n p h hd =>
+      obtain ⟨hend, _, _⟩ := runContainer_ok o n h
+      have hres : o.resultPresent = true := by
+        cases hr : o.resultPresent with
+        | true => rfl
+        | false => simp [deliver, hr] at hd
+      have hout : fs.outDirExists = true := by
+        cases hx : fs.outDirExists with
+        | true => rfl
+        | false => simp [deliver, hres, hx] at hd
+      exact ⟨⟨hv, hs, ht⟩, hend, hres, hout, (hok p rfl).1, by rw [h1]; simp⟩
+
+/-! ## the temporary directory and the order of the steps -/
+
+/-- **C17.tempdir_released** — after every execution (refused, untranslatable, different
+directories, container failed at any point, result missing, output directory missing, success) no
+temporary directory is left; and package generation, file list, `docker.run` and the copy all
+happen while it exists. (`TemporaryDirectory`'s own contract — removal on every exit of the `with`
+block — is trusted; the harness counts leftovers on the real code in every case.) -/
+theorem tempdir_released (a : DatasetArgs) (q : QueryFacts) (fs : FsFacts) (o : Outcome) :
+    TempReleased (observe a (execute a q fs o)) ∧ (observe a (execute a q fs o)).runDirLive = true := by
+  have h := execute_shape a q fs o
+  generalize execute a q fs o = r at h
+  cases h with
+  | refused e hv hc => simp [TempReleased, observe, liveAfter, liveAtWork]
+  | untranslatable hv ht => simp [TempReleased, observe, liveAfter, liveAtWork]
+  | differentDirs hv ht hs ls => simp [TempReleased, observe, liveAfter, liveAtWork]
+  | ran hv ht hs u us hp tl r htl =>
+    obtain ⟨_, _, _, _, h5, h6, _⟩ := observe_ran a (mkCall (mkDataset a fs) q u.parent) tl r htl
+    exact ⟨h6, h5⟩
+
+/-- **C17.machine** — the four-state machine `validated → packaged → ran → delivered`: a refused
+constructor leaves no event at all; otherwise the events are `tmpCreate`, then the first `k` of
+`package, filelist, run, pulled, copy` in this order, then `tmpRemove` — with `k = 0` exactly when
+the query does not translate (left `validated`), `k = 2` only when the files are in different
+directories (package written, no container), `k = 4` when the container ran but nothing was
+delivered, and `k = 5` exactly when a path is returned (`delivered`). -/
+theorem machine (a : DatasetArgs) (q : QueryFacts) (fs : FsFacts) (o : Outcome) :
+    (¬ Valid a fs ∧ (execute a q fs o).1 = [] ∧ ∃ e, (execute a q fs o).2 = .error e) ∨
+    (Valid a fs ∧ ∃ k, (execute a q fs o).1.map Ev.kind = .tmpCreate :: steps.take k ++ [.tmpRemove] ∧
+      (k = 0 ∨ k = 2 ∨ k = 4 ∨ k = 5) ∧ (k = 0 ↔ q.translates = false) ∧ (k = 2 → ¬ SameDir a) ∧
+      (4 ≤ k ↔ Runnable a q fs) ∧ ((∃ p, (execute a q fs o).2 = .ok p) ↔ k = 5)) := by
+  have h := execute_shape a q fs o
+  generalize execute a q fs o = r at h
+  cases h with
+  | refused e hv hc => exact Or.inl ⟨hv, rfl, e, rfl⟩
+  | untranslatable hv ht => exact Or.inr ⟨hv, 0, by simp [Ev.kind, steps], by simp [ht, Runnable]⟩
+  | differentDirs hv ht hs ls => exact Or.inr ⟨hv, 2, by simp [Ev.kind, steps], by simp [ht, hs, Runnable]⟩
+  | ran hv ht hs u us hp tl r htl =>
+    refine Or.inr ⟨hv, ?_⟩
+    cases htl with
+    | streamFailed n e h => exact ⟨4, by simp [Ev.kind, steps], by simp [ht, hs, hv, Runnable]⟩
+    | deliverFailed n e h hd => exact ⟨4, by simp [Ev.kind, steps], by simp [ht, hs, hv, Runnable]⟩
+    | delivered n p h hd => exact ⟨5, by simp [Ev.kind, steps], by simp [ht, hs, hv, Runnable]⟩
+
+/-! ## everything together -/
+
+/-- **C17.spec_partial** — the whole specification holds of every execution, under the two
+decidable hypotheses: the row's main script is in its package (true of the generated table) and
+every output chunk decodes (defect exclusion: `success_returns_counterexample`). Only the clauses
+`success_returns` and `failure_class` use the second one. -/
+theorem spec_partial (a : DatasetArgs) (q : QueryFacts) (fs : FsFacts) (o : Outcome)
+    (hrow : a.row.runner ∈ a.row.fileNames) (hd : AllDecode o) :
+    Spec a q fs o (observe a (execute a q fs o)) :=
+  ⟨validate_first a q fs o, filelist a q fs o, image a q fs o, volumes a q fs o,
+   call_exactly_when_runnable a q fs o hrow, failure_propagates a q fs o,
+   fun hd' => failure_class_partial a q fs o hd', missing_result a q fs o,
+   success_returns_partial a q fs o hd, returns_only_on_success a q fs o, (tempdir_released a q fs o).1⟩
+
+/-! ## the generated table -/
+
+/-- **C17.generated_recognised** — the translator understood everything it read in the three
+`local_dataset.py`, their executors, their `runner.sh` and the two common files. -/
+theorem generated_recognised : unrecognised = [] := by decide
+
+/-- **C17.generated_backends_wellformed** — the three backends are there, and each row is
+consistent across files: main script in the package; the script's result file is the one the
+translator reports (`ANALYSIS.root`) and lands in `/results`; it reads `filelist.txt`; cache
+volumes are mounted at absolute paths away from `/scripts`, `/results`, `/data`, and the ATLAS
+script's calibration cache directory is one of them. -/
+theorem generated_backends_wellformed :
+    backends.map (·.key) = ["atlas", "cms_aod", "cms_miniaod"] ∧ ∀ r ∈ backends, RowOk r := by decide
+
+/-- the specification for the generated backends (corollary of `spec_partial`) -/
+theorem spec_generated (a : DatasetArgs) (q : QueryFacts) (fs : FsFacts) (o : Outcome)
+    (ha : a.row ∈ backends) (hd : AllDecode o) : Spec a q fs o (observe a (execute a q fs o)) :=
+  spec_partial a q fs o (generated_backends_wellformed.2 a.row ha).1 hd
+
+/-! ## counterexamples and non-vacuity (literals) -/
+
+def exRow : BackendRow :=
+  { key := "ex", datasetClass := "ExDataset", defaultImage := "ex/image", defaultTag := "1.0",
+    cacheVolumes := [("ex_cache", "/ex_cache")], executorClass := "ex_executor", runner := "runner.sh",
+    fileNames := ["query.cxx", "runner.sh"], templateDir := "t", runnerResultName := "ANALYSIS.root",
+    runnerOutputDir := "/results", runnerFilelist := "filelist.txt", runnerCacheDirs := [] }
+
+def exArgs : DatasetArgs :=
+  { row := exRow, files := ["/d/a.root", "/d//b.root"], image := none, tag := none, outputDir := some "/out" }
+def exFs : FsFacts :=
+  { existing := [parsePath "/d/a.root", parsePath "/d/b.root", parsePath "/e/c.root"], tempRoot := "/tmp", outDirExists := true }
+def exQ : QueryFacts := { mds := [.other, .docker (some "inner:1"), .docker (some "outer:2")], translates := true }
+/-- two decodable chunks ("ok\n" on stdout, "é" on stderr), success, result written -/
+def exGood : Outcome :=
+  { chunks := [⟨true, [111, 107, 10]⟩, ⟨false, [0xC3, 0xA9]⟩], ending := .success, atCall := false, resultPresent := true }
+/-- the container prints `caf\xe9\n` (Latin-1, not UTF-8), ends well and leaves its result -/
+def exLatin1 : Outcome :=
+  { chunks := [⟨true, [99, 97, 102, 0xE9, 10]⟩], ending := .success, atCall := false, resultPresent := true }
+/-- the same output, but the container then fails -/
+def exLatin1Fail : Outcome := { exLatin1 with ending := .dockerError }
+
+/-- **C17.success_returns_counterexample** — the full-strength success clause is FALSE of the code:
+runnable inputs, a container that succeeds and leaves its result, an existing output directory —
+but one chunk of its output is not UTF-8, and the caller gets `UnicodeDecodeError` instead of the
+result (replayed on the real code every run: known finding). -/
+theorem success_returns_counterexample :
+    Runnable exArgs exQ exFs ∧ exLatin1.ending = .success ∧ exLatin1.resultPresent = true ∧
+    (observe exArgs (execute exArgs exQ exFs exLatin1)).err = some "UnicodeDecodeError" ∧
+    ¬ SuccessReturns exArgs exQ exFs exLatin1 (observe exArgs (execute exArgs exQ exFs exLatin1)) := by decide
+
+/-- **C17.failure_class_counterexample** — with undecodable output a failing container's
+`DockerException` never reaches the caller; `UnicodeDecodeError` does (still an error: clause
+`failure_propagates` holds). -/
+theorem failure_class_counterexample :
+    ¬ FailureClass exLatin1Fail (observe exArgs (execute exArgs exQ exFs exLatin1Fail)) ∧
+    FailurePropagates exLatin1Fail (observe exArgs (execute exArgs exQ exFs exLatin1Fail)) := by decide
+
+-- non-vacuity: the hypotheses of the partial theorems are satisfiable and the success path is real
+example : exRow.runner ∈ exRow.fileNames ∧ AllDecode exGood ∧ Runnable exArgs exQ exFs := by decide
+example : (observe exArgs (execute exArgs exQ exFs exGood)).returned = ["/out/ANALYSIS.root"] := by decide
+example : ((observe exArgs (execute exArgs exQ exFs exGood)).calls.map (·.image)) = ["inner:1"] := by decide
+example : (observe exArgs (execute exArgs exQ exFs exGood)).seenFilelist = some "/data/a.root\n/data/b.root\n" := by decide
+example : (execute exArgs exQ exFs exGood).1.map Ev.kind =
+    [.tmpCreate, .package, .filelist, .run, .pulled, .copy, .tmpRemove] := by decide
+-- different directories: error, no container
+example : ¬ SameDir { exArgs with files := ["/d/a.root", "/e/c.root"] } ∧
+    (execute { exArgs with files := ["/d/a.root", "/e/c.root"] } exQ exFs exGood).1.map Ev.kind =
+      [.tmpCreate, .package, .filelist, .tmpRemove] := by decide
+-- missing file / empty list: constructor error
+example : (execute { exArgs with files := ["/d/a.root", "/d/nope.root"] } exQ exFs exGood).1 = [] := by decide
+example : ¬ Valid { exArgs with files := [] } exFs := by decide
+-- failure after one chunk, with decodable output: DockerException
+example : (observe exArgs (execute exArgs exQ exFs { exGood with ending := .dockerError })).err = some "DockerException" := by decide
+example : ∀ r ∈ backends, r.runner ∈ r.fileNames := fun r hr => (generated_backends_wellformed.2 r hr).1
+
+end FaxVerif.C17
